@@ -1365,6 +1365,61 @@ func boundaryCases(r *Rng, ks keyStore) {
 	}
 }
 
+// errorCodes: the stub TSIG record carries every Error value (all assigned RCODEs 0..23 and
+// some larger ones), with and without other data.  RFC 8945 5.3.2 leaves only BADKEY (17)
+// and BADSIG (16) answers unsigned; for every other value the property's first sentence
+// holds: the output carries the RFC 8945 HMAC (the Error field is part of the digest) and
+// verifies under the same key, request MAC and timers-only setting - checked by oracleSigned
+// against the harness's own digest and by the model.  A BADKEY / BADSIG output has an empty
+// MAC and must never verify.
+func errorCodes(r0 *Rng, single, multi keyStore) {
+	r := &Rng{S: r0.S ^ 0x7e44c0de}
+	codes := []uint16{24, 25, 31, 32, 255, 256, 4095, 4096, 65535, uint16(r.Next())}
+	for e := 0; e <= 23; e++ {
+		codes = append(codes, uint16(e))
+	}
+	for i, e := range codes {
+		for v := 0; v < 2; v++ {
+			m := genMsg(r, true)
+			c := genCfg(r)
+			c.errc, c.other = e, ""
+			if e == dns.RcodeBadTime || v == 1 && i%3 == 0 {
+				c.other = Hx(r.Bytes(6))
+			}
+			ks := single
+			if v == 1 {
+				ks = multi
+				if _, ok := multi.secrets[c.keyName]; !ok {
+					c.keyName = "key.example."
+				}
+			}
+			st["error_codes_checked"]++
+			emitGenerate(m, c, ks)
+			if e == dns.RcodeBadKey || e == dns.RcodeBadSig {
+				out, mac, stub, err := sign(m, c, ks)
+				in := c11in{Secret: ks.secret, ReqMAC: c.rm, Timers: c.timers, Alg: c.alg, Key: c.keyName, Detail: "stub TSIG error " + u(uint64(e))}
+				if err != nil {
+					if len(c.rm) != 2 {
+						Viol("C11/Generate/error", "TsigGenerate failed: "+err.Error(), in)
+					}
+					continue
+				}
+				in.Signed, in.Now = Hx(out), stub.TimeSigned
+				if got := protectVerify(ks, out, c.rm, c.timers, stub.TimeSigned); got == "ok:" || got == "panic" {
+					Viol("C11/Verify/unsigned-accepted", "a BADKEY / BADSIG answer (MAC "+mac+") verification "+got, in)
+				}
+				emitVerify(out, ks, c.rm, c.timers, stub.TimeSigned)
+				continue
+			}
+			out, _, stub := oracleSigned(r, m, c, ks, false)
+			if out != nil {
+				emitVerify(out, ks, c.rm, c.timers, stub.TimeSigned)
+				emitVerify(out, ks, c.rm, !c.timers, stub.TimeSigned)
+			}
+		}
+	}
+}
+
 func runC11(r *Rng, tier string, n int) {
 	nmsg, nchain, nmodel := 60, 30, 40
 	if tier == "thorough" {
@@ -1419,6 +1474,8 @@ func runC11(r *Rng, tier string, n int) {
 		}
 		emitGenerate(m, c, multi)
 	}
+	// (1b) stub TSIG records with every Error value
+	errorCodes(r, single, multi)
 	// (2) chains of 1..6 envelopes
 	for i := 0; i < nchain; i++ {
 		ks := single
